@@ -82,6 +82,7 @@ def plan(tier, seed):
     return ([{'kind': 'random', 'seed': seed, 'idx': i} for i in range(n)] +
             [{'kind': 'parallel-kill', 'seed': seed, 'idx': i} for i in range(40 if tier == 'quick' else 400)] +
             [{'kind': 'long-history', 'seed': seed, 'idx': i} for i in range(40 if tier == 'quick' else 400)] +
+            [{'kind': 'bad-release', 'seed': seed, 'idx': i} for i in range(24 if tier == 'quick' else 240)] +
             [{'kind': 'live', 'seed': seed, 'idx': i} for i in range(3 if tier == 'quick' else 30)] +
             [{'kind': 'live-stalled-subscriber', 'seed': seed, 'idx': i} for i in range(1 if tier == 'quick' else 4)])
 
@@ -199,6 +200,25 @@ def run_case(spec):
             steps += [list(rep), ['settle', 60]]
         run_history({'kill_latency': 0.0, 'watchers': [wconf], 'steps': steps + [last, ['adv', 0.1]]}, res)
         res.obs['long_history_cases'] += 1
+    elif spec.get('kind') == 'bad-release':
+        # a healthy first generation; every later generation exits by itself during (or right after) its warm-up -- a
+        # broken release, a bad cmd just applied: the operation that replaces the workers ends all the same
+        rnd = rng_for(spec['seed'], 'C05-bad-release', spec['idx'])
+        np_ = rnd.choice([1, 2, 3])
+        wu = rnd.choice([0.3, 0.3, 1.0, 0])
+        crash = {'self_exit': [rnd.choice([0.0, 0.05, 0.2]), rnd.choice([256, 0, 9])]}
+        wconf = {'name': 'a', 'numprocesses': np_, 'graceful_timeout': rnd.choice([0.2, 0.5]), 'warmup_delay': wu,
+                 'singleton': False, 'beh': [{'15': ['die', 0.05]}] * np_ + [dict({'15': ['die', 0.05]}, **crash)] * 40}
+        op = [['req', 'reload', {'name': 'a', 'sequential': True, 'waiting': True}],
+              ['req', 'reload', {'name': 'a', 'waiting': True}],
+              ['req', 'restart', {'name': 'a', 'waiting': True}],
+              ['req', 'reload', {'name': 'a', 'graceful': False, 'waiting': True}],
+              ['req', 'set', {'name': 'a', 'options': {'args': '--new'}, 'waiting': True}],
+              ['req', 'incr', {'name': 'a', 'nb': 2, 'waiting': True}]][spec['idx'] % 6]
+        run_history({'kill_latency': 0.0, 'watchers': [wconf, {'name': 'b', 'numprocesses': 1, 'graceful_timeout': 0.2}],
+                     'steps': [['adv', 0.2], op, ['adv', 0.3], ['req', 'incr', {'name': 'b', 'waiting': True}], ['adv', 0.1]],
+                     'probes': True}, res)
+        res.obs['bad_release_cases'] += 1
     elif spec.get('kind') == 'parallel-kill':
         # several workers that all sit out the whole grace period: the applicable timeout is one graceful_timeout
         # (+ warmups), not one per worker
